@@ -1801,7 +1801,9 @@ func InstallLateObligations() {
 		}
 		lateInstalled[name] = true
 		orig, n := r.Run, name
-		r.Run = func(c *core.Ctx) []core.Obligation { return append(append(orig(c), round10Specific(c, n)...), round12Specific(c, n)...) }
+		r.Run = func(c *core.Ctx) []core.Obligation {
+			return append(append(orig(c), round10Specific(c, n)...), round12Specific(c, n)...)
+		}
 	}
 }
 
